@@ -2,6 +2,8 @@
 //! (feature `symbolic`, path-exhaustive exploration) and against the real /repo crates (native
 //! replay of counterexamples).
 mod glue;
+mod exprs;
+mod c01;
 mod c14;
 mod c20;
 
@@ -22,10 +24,26 @@ impl Template {
 
 fn suite(name: &str, thorough: bool) -> Vec<Template> {
     match name {
+        "c01" => c01::templates(thorough),
         "c14" => c14::templates(thorough),
         "c20" => c20::templates(thorough),
         other => panic!("unknown suite {other}"),
     }
+}
+
+fn claim_next(path: &str) -> usize {
+    use std::io::{Read, Seek, SeekFrom};
+    let mut f = std::fs::OpenOptions::new().read(true).write(true).create(true).open(path).expect("queue file");
+    f.lock().expect("lock queue file");
+    let mut s = String::new();
+    f.read_to_string(&mut s).unwrap();
+    let n: usize = s.trim().parse().unwrap_or(0);
+    f.set_len(0).unwrap();
+    f.seek(SeekFrom::Start(0)).unwrap();
+    write!(f, "{}", n + 1).unwrap();
+    f.flush().unwrap();
+    let _ = f.unlock();
+    n
 }
 
 fn arg_value(args: &[String], key: &str) -> Option<String> {
@@ -62,10 +80,26 @@ fn main() {
                 let n = templates.len();
                 templates.rotate_left((seed as usize) % n);
             }
-            for (i, t) in templates.iter().enumerate() {
-                if i % nshards != shard {
+            let queue = arg_value(&args, "--queue");
+            let mut next_static = 0usize;
+            loop {
+                // dynamic distribution: workers claim the next template index from a shared counter
+                // file; without --queue the templates are split statically by --shard i/n
+                let idx = match &queue {
+                    Some(q) => claim_next(q),
+                    None => {
+                        let i = next_static;
+                        next_static += 1;
+                        i
+                    }
+                };
+                if idx >= templates.len() {
+                    break;
+                }
+                if queue.is_none() && idx % nshards != shard {
                     continue;
                 }
+                let t = &templates[idx];
                 if let Some(o) = &only {
                     if &t.id != o {
                         continue;
